@@ -43,8 +43,12 @@ PID = "C17"
 # ------------------------------------------------------------------------------------------------
 # cases: dict(kind, bucket, dim, pts, body=[lines])
 
+def fac(c):
+    """printed squared distances are fac(c) * d^2: 16 S^2 for the Euclidean metric, 16 S^4 for PolynomialKernel(2,1) (S = coordinate scale)"""
+    S = c.get("scale", 1); return 16 * S * S * (S * S if c["kind"] == "khc2" else 1)
+
 def dline(c, tree=None):
-    s = "D %s %d %d %d %s" % (c["kind"], c["bucket"], c["dim"], len(c["pts"]), " ".join(str(x) for p in c["pts"] for x in p))
+    s = "D %s %d %d %d %s" % (c["kind"] + ("/%d" % c["scale"] if c.get("scale", 1) != 1 else ""), c["bucket"], c["dim"], len(c["pts"]), " ".join(str(x) for p in c["pts"] for x in p))
     return s + (" | tree=" + tree if tree else "")
 
 def case_lines(c, tree=None):
@@ -53,7 +57,7 @@ def case_lines(c, tree=None):
 def parse_case(lines):
     hd = lines[0].split("|")[0].split()
     dim, n = int(hd[3]), int(hd[4]); cs = list(map(int, hd[5:5 + dim * n]))
-    return {"kind": hd[1], "bucket": int(hd[2]), "dim": dim, "pts": [cs[i * dim:(i + 1) * dim] for i in range(n)], "body": [l for l in lines[1:]]}
+    return {"kind": hd[1].split("/")[0], "scale": int(hd[1].split("/")[1]) if "/" in hd[1] else 1, "bucket": int(hd[2]), "dim": dim, "pts": [cs[i * dim:(i + 1) * dim] for i in range(n)], "body": [l for l in lines[1:]]}
 
 def parse_tree(s):
     def go(i):
@@ -151,10 +155,11 @@ def gen_queries(rng, c, tree, m, ptree=None):
 # spec monitor: exhaustive search
 
 def true16(c, h):
-    """16 x squared distance of every data point to the query (half units h) in the tree's metric"""
-    if c["kind"] == "khc2":      # PolynomialKernel(2,1): k(x,y) = (x.y+1)^2, feature distance
-        hh = sum(x * x for x in h)
-        return [16 * (sum(x * x for x in p) + 1) ** 2 - 2 * 4 * (sum(a * b for a, b in zip(p, h)) + 2) ** 2 + (hh + 4) ** 2 for p in c["pts"]]
+    """fac(c) x squared distance of every data point (integer units c, real value c/S) to the query (half units h, real value
+    h/(2S)) in the tree's metric; exact integers"""
+    if c["kind"] == "khc2":      # PolynomialKernel(2,1): k(x,y) = (x.y+1)^2, feature distance; 16 S^4 d^2
+        hh = sum(x * x for x in h); S2 = c.get("scale", 1) ** 2
+        return [16 * (sum(x * x for x in p) + S2) ** 2 - 2 * 4 * (sum(a * b for a, b in zip(p, h)) + 2 * S2) ** 2 + (hh + 4 * S2) ** 2 for p in c["pts"]]
     return [4 * sum((2 * a - b) ** 2 for a, b in zip(p, h)) for p in c["pts"]]
 
 def parse_q(o):
@@ -199,13 +204,13 @@ def impl_meta(o):
 def vote_weights(ds, w):
     return [1.0 if w == 0 else (1e100 if d < 1e-100 else 1.0 / d) for d in ds]
 
-def knn_valid(tr, labels, nb):
+def knn_valid(tr, labels, nb, f=16):
     """nb = [(distance, label)] as returned by a back-end; tr = 16 d^2 of every data point; is nb a list of K nearest
     neighbours (distances non-decreasing and equal to the K smallest, every (distance, label) pair backed by a data point,
     all points strictly nearer than the K-th distance present)?  returns None or a message"""
     from collections import Counter
     K = len(nb); st = sorted(tr)
-    got = [int(round(16.0 * d * d)) for d, _ in nb]
+    got = [int(round(float(f) * d * d)) for d, _ in nb]
     if got != st[:K]: return "reported 16d^2 %s, the %d smallest true values are %s" % (got, K, st[:K])
     have = Counter((t, l) for t, l in zip(tr, labels)); rep = Counter(zip(got, [l for _, l in nb]))
     for key, cnt in rep.items():
@@ -230,7 +235,7 @@ def monitor_vote_C(c, t, o, tkey):
     res = []
     for be, (cl, sc, nb) in (("TreeNearestNeighbors", m.group(1, 2, 3)), ("SimpleNearestNeighbors", m.group(4, 5, 6))):
         cl = int(cl); sc = [float(x) for x in sc.split(",")]; nb = [(float(a), int(b)) for a, b in (x.split(":") for x in nb.split(","))]
-        bad = knn_valid(tr, labels, nb) if len(nb) == K else "returned %d of %d neighbours" % (len(nb), K)
+        bad = knn_valid(tr, labels, nb, fac(c)) if len(nb) == K else "returned %d of %d neighbours" % (len(nb), K)
         if bad: msgs.append((tkey if be[0] == "T" else "simpleNN:neighbours", "%s.getNeighbors(k=%d), query h=%s: %s" % (be, K, h, bad))); continue
         ws = vote_weights([d for d, _ in nb], w); hist = [0.0] * nc
         for wi, (_, l) in zip(ws, nb): hist[l] += wi
@@ -244,7 +249,7 @@ def monitor_vote_C(c, t, o, tkey):
             if cl != exp.index(max(exp)): msgs.append(("nnmodel:vote", "NearestNeighborModel(k=%d) on %s: class %d, arg max of the scores %s is %d" % (K, be, cl, sc, exp.index(max(exp)))))
         elif cl not in [i for i, x in enumerate(exp) if top[0] - x <= 1e-12 * (1 + top[0])]:
             msgs.append(("nnmodel:vote", "NearestNeighborModel(k=%d) on %s: class %d is not among the maximal scores %s" % (K, be, cl, sc)))
-        res.append((cl, sc, sorted((int(round(16 * d * d)), l) for d, l in nb)))
+        res.append((cl, sc, sorted((int(round(fac(c) * d * d)), l) for d, l in nb)))
     if len(res) == 2:
         (c1, s1, m1), (c2, s2, m2) = res; st = sorted(tr)
         tie = K < n and st[K - 1] == st[K]
@@ -296,7 +301,7 @@ def monitor_case(c, out):
                         K = int(k[1:]); r = [(int(a), int(b)) for a, b in v]
                         if len(r) != K or [a for a, _ in r] != st[:K] or any(tr[b] != a for a, b in r):
                             bad = "getNeighbors(k=%d) = %s, exhaustive search gives distances %s" % (K, r, st[:K]); break
-                if bad: msgs.append((tkey, "%s tree, query h/2 with h=%s: %s" % (c["kind"], h, bad)))
+                if bad: msgs.append((tkey, "%s tree, query h/2 with h=%s%s: %s" % (c["kind"], h, "" if c.get("scale", 1) == 1 else " (coordinate scale 1/%d: data c/%d, query h/%d, printed values are %d*d^2)" % (c["scale"], c["scale"], 2 * c["scale"], fac(c)), bad)))
             except (ValueError, KeyError, IndexError) as e:
                 msgs.append((tkey, "unparsable output for %s: %s" % (l, o[:200])))
         elif t[0] == "C":
@@ -312,13 +317,13 @@ def monitor_case(c, out):
                 mm = re.search(r" %s=(\S+)" % fld, o)
                 if not mm or not mp: continue
                 nb = [(float(a), tuple(int(float(x)) for x in b.split(","))) for a, b in (x.split(":") for x in mm.group(1).split(";"))]
-                bad = knn_valid(tr, rl, nb) if len(nb) == K else "returned %d of %d neighbours" % (len(nb), K)
+                bad = knn_valid(tr, rl, nb, fac(c)) if len(nb) == K else "returned %d of %d neighbours" % (len(nb), K)
                 if bad: msgs.append((tkey if be[0] == "T" else "simpleNN:neighbours", "%s.getNeighbors(k=%d), query h=%s: %s" % (be, K, h, bad))); continue
                 ws = vote_weights([d for d, _ in nb], w)
                 exp = [sum(wi * l[j] for wi, (_, l) in zip(ws, nb)) / sum(ws) for j in range(2)]
                 if not close_list([float(pr[0]), float(pr[1])], exp):
                     msgs.append(("nnmodel:vote", "NearestNeighborModel(k=%d,%s) regression on %s: prediction %s, the weighted mean of the returned neighbours %s is %s" % (K, "1/distance" if w else "uniform", be, pr, nb, exp)))
-                preds[be] = ([float(pr[0]), float(pr[1])], sorted((int(round(16 * d * d)), l) for d, l in nb))
+                preds[be] = ([float(pr[0]), float(pr[1])], sorted((int(round(fac(c) * d * d)), l) for d, l in nb))
             if K < n and tr[order[K - 1]] == tr[order[K]]:
                 # tie at the k-th distance: each back-end may pick any of the tied points (C17_vote_backend_tie_refuted); counted, not hidden
                 OBS["tie_cases"] += 1
@@ -334,7 +339,7 @@ def monitor_case(c, out):
             def pred(sq):
                 ws = []
                 for i in order[:K]:
-                    d2 = tr[i] / 16.0; d = d2 if sq else math.sqrt(d2)
+                    d2 = tr[i] / float(fac(c)); d = d2 if sq else math.sqrt(d2)
                     ws.append(1.0 if w == 0 else (1e100 if d < 1e-100 else 1.0 / d))
                 s = sum(ws)
                 return [sum(wi * ((7 * i + 3) % 11) for wi, i in zip(ws, order[:K])) / s, sum(wi * (i % 3) for wi, i in zip(ws, order[:K])) / s]
@@ -467,6 +472,27 @@ def main():
                     pts = [[a[j] + t * b[j] for j in range(d)] for t in (rx.randint(-6, 6) for _ in range(n))]
                 else: pts = [[rx.randint(-6, 6) for _ in range(d)] for _ in range(n)]
                 fresh.append(({"kind": kind, "bucket": 0, "dim": d, "pts": pts, "body": []}, 3, False))
+        # clusters (all kinds, aimed at lc / khc): 30..70 points, 60-90% copies of ONE point, the others within a small neighbourhood, on a
+        # 1/8 or 1/16 grid (distinct points closer than 1); half of the cases place the distinct points where buildTree does not sample
+        # (positions other than n*(2i+1)/50), so that the degenerate-sample branch of repair c6ff0316 runs at the root
+        for kind, m in (("lc", 10), ("khc", 8), ("khc2", 5), ("kd", 5)):
+            for _ in range(m * (8 if big else 1)):
+                d = rx.choice([1, 2, 2, 3]); n = rx.randint(30, 70); S = rx.choice([8, 16])
+                p0 = [rx.randint(-12, 12) for _ in range(d)]; nd = max(1, int(n * rx.uniform(0.1, 0.4)))
+                R = rx.choice([1, 2, 3, 5])
+                def nearp():
+                    while True:
+                        q = [x + rx.randint(-R, R) for x in p0]
+                        if q != p0: return q
+                pts = [list(p0) for _ in range(n)]
+                sampled = set(n * (2 * i + 1) // 50 for i in range(25))
+                if rx.random() < 0.5:
+                    free = [i for i in range(1, n) if i not in sampled]; rx.shuffle(free)
+                    for i in free[:min(nd, len(free))]: pts[i] = nearp()
+                else:
+                    for i in rx.sample(range(n), nd): pts[i] = nearp()
+                if kind == "khc2": pts = [[max(-48, min(48, x)) for x in p] for p in pts]
+                fresh.append(({"kind": kind, "scale": S, "bucket": 0, "dim": d, "pts": pts, "body": []}, 4, "K"))
         # NearestNeighborModel: classification (C lines) and regression (P lines) votes on every kind of tree, both back-ends
         for kind, m in (("kd", 36), ("lc", 22), ("khc", 18), ("khc2", 18)):
             for _ in range(m * (10 if big else 1)):
@@ -484,7 +510,12 @@ def main():
                 ptree = parse_ptree(re.search(r"ptree=(\S+)", o[0]).group(1))
             qs = gen_queries(rng, c, tree, nq, ptree)
             if c["kind"] == "khc2": qs = ["Q " + " ".join(str(max(-120, min(120, int(x)))) for x in q.split()[1:]) for q in qs]
-            if isP == "V":
+            if isP == "K":                                      # queries near the cluster (integer units, half steps), some far away
+                p0 = c["pts"][0]
+                qs = ["Q " + " ".join(str(2 * x + rx.randint(-8, 8)) for x in rx.choice(c["pts"])) if rx.random() < 0.8
+                      else "Q " + " ".join(str(2 * x + rx.choice([-1, 1]) * rx.randint(40, 400)) for x in p0) for _ in range(len(qs))]
+                if c["kind"] == "khc2": qs = ["Q " + " ".join(str(max(-120, min(120, int(x)))) for x in q.split()[1:]) for q in qs]
+            elif isP == "V":
                 n = len(c["pts"]); vq = []
                 for q in qs:
                     r = rx.random()
@@ -656,7 +687,7 @@ def main():
             byd = {}
             for i in range(n): byd.setdefault(tr[i], set()).add(tuple(c["pts"][i]))
             tiefree = all(len(v) == 1 for v in byd.values())
-            near = any(abs(16.0 * lbv - t) <= 1e-9 * (1.0 + t) for lbv in ay["lb"] for t in tr) or any(abs(v) <= 1e-9 for v in ay["fp"])
+            near = any(abs(float(fac(c)) * lbv - t) <= 1e-9 * (1.0 + t) for lbv in ay["lb"] for t in tr) or any(abs(v) <= 1e-9 for v in ay["fp"])
             if tiefree and not near:
                 tx = [(z[2], z[3]) for z in dx["it"]]; ty = [(z[2], z[3]) for z in dy["it"]]
                 for j, ((qa, ra), (qb, rb)) in enumerate(zip(tx, ty)):
@@ -865,6 +896,7 @@ def main():
                       "queries in half units: inside, equal to data points, far outside (300..2000), exactly on / one half-unit next to the real splitting planes; every query asks for all n neighbours through "
                       "IterativeNNQuery::next and k=1..n through TreeNearestNeighbors::getNeighbors; construction: the tree of every kd data set is rebuilt by the extracted kd_build from the recorded results of the real std::nth_element calls and compared node by node (see construction_model); non-trivial = at least 3 points; distinct = distinct (tree kind, data set, query); "
                       "projection trees (LC, KHC linear, KHC polynomial degree 2): the same point streams WITH duplicates, collinear points and points on the cutting hyper-surface, plus n = 1, 2, all points equal, 26..44 points (more than CuttingAccuracy: sampled cut direction, degenerate samples); queries also exactly on a real splitting hyper-surface (midpoint of the extreme left / right projections) and far outside; "
+                      "clusters: 30..70 points on a 1/8 or 1/16 grid, 60-90%% copies of one point, the others closer than 1 to it, half of the cases with the distinct points at positions buildTree does not sample (degenerate-sample branch of c6ff0316), all four kinds of tree, queries near the cluster and far away, all n neighbours; "
                       "votes: k = 1..6, uniform / 1/distance weights, 1..4 classes (labels (5i+2) mod nc) and 2-d regression labels, queries on data points (zero distance) and midpoints of data points (ties at the k-th distance), every kind of tree, both back-ends")
     ck.cov["samples"] = [case_lines(c)[:3] for c in cases[:2]]
     ck.cov["traces_validated_against_impl"] = len(kd) - len([ci for ci in kd if ci in mon_failed_cases])
